@@ -13,6 +13,7 @@ import sqlite3
 import sys
 import tempfile
 import threading
+import traceback
 import warnings
 
 from . import fakeos
@@ -222,6 +223,7 @@ class RunResult:
     def __init__(self):
         self.status = None      # 0, int exit code, or "exc:<Type>"
         self.exc = None
+        self.tb = None
         self.stdout = None
         self.stderr = None
         self.kernel = None
@@ -269,15 +271,16 @@ def watchdog(seconds):
         yield
         return
     old = signal.signal(signal.SIGALRM, on_alarm)
-    signal.alarm(seconds)
+    # repeating: an alarm raised inside a finaliser is discarded by the interpreter
+    signal.setitimer(signal.ITIMER_REAL, seconds, 3)
     try:
         yield
     finally:
-        signal.alarm(0)
+        signal.setitimer(signal.ITIMER_REAL, 0)
         signal.signal(signal.SIGALRM, old)
 
 
-def invoke(func, ns, cwd, kernel=None, env=None, stdin_text=None, timeout=60):
+def invoke(func, ns, cwd, kernel=None, env=None, stdin_text=None, timeout=25):
     """Call a Conductor CLI entry point (already wrapped by cli_command) the way
     ``python -m conductor`` would, in-process, and capture everything observable.
     """
@@ -305,18 +308,28 @@ def invoke(func, ns, cwd, kernel=None, env=None, stdin_text=None, timeout=60):
             st.enter_context(contextlib.redirect_stdout(res.stdout))
             st.enter_context(contextlib.redirect_stderr(res.stderr))
             try:
-                func(ns)
-                res.status = 0
+                try:
+                    func(ns)
+                    res.status = 0
+                except BaseException:
+                    # before any frame of the failed command is released: let the
+                    # tee threads of children that were left running see EOF
+                    if kernel is not None:
+                        kernel.release_children()
+                    raise
             except SystemExit as ex:
                 code = ex.code
                 res.status = 0 if code is None else (code if isinstance(code, int) else 1)
             except fakeos.Deadlock as ex:
                 res.status = "deadlock"
-                res.exc = ex
+                res.exc = repr(ex)
             except Exception as ex:      # what the real CLI would print as a traceback
                 res.status = "exc:" + type(ex).__name__
-                res.exc = ex
+                res.exc = repr(ex)
+                res.tb = traceback.format_exc(limit=-6)
             finally:
+                if kernel is not None:
+                    kernel.release_children()
                 # drop references to Popen objects while the fake kernel is still in place
                 ns = None
                 _COUNT[0] += 1
